@@ -12,7 +12,7 @@
 EXTENDS LazyLoad, Json
 
 VARIABLE hist
-gvars == <<mem, root, cur, snapOpen, mainOpen, released, hist>>
+gvars == <<mem, root, cur, snapOpen, mainOpen, released, fails, hist>>
 
 H(o) == hist' = Append(hist, o)
 Who(v) == IF v = 0 /\ snapOpen THEN "snap" ELSE "main"
